@@ -343,6 +343,11 @@ class ConditionEvaluator(ast.NodeVisitor):
         self.errors.append(InvalidEvaluation(message, node))
         return ConditionReturn(NullCondition())
 
+    def generic_visit(self, node: ast.AST) -> ConditionReturn:
+        # Any expression without a visit_ method (a bare name, a constant, an
+        # attribute, ...) is not a supported condition.
+        return self.return_invalid("Unsupported condition", node)
+
     def visit_Call(self, node: ast.Call) -> ConditionReturn:
         if not isinstance(node.func, ast.Name):
             return self.return_invalid("Unexpected call", node.func)
